@@ -186,7 +186,9 @@ class PureEval:
         import math
         self.lib = {"isnan": math.isnan, "isinf": math.isinf, "copysign": math.copysign, "str": str, "repr": repr, "type": type, "tuple": tuple,
                     "frozenset": frozenset, "map": lambda f, xs: tuple(f(x) for x in xs), "isinstance": isinstance, "float": float, "int": int,
-                    "bool": bool, "complex": complex, "bytes": bytes, "len": len, "abs": abs, "any": any, "all": all, "hash": hash}
+                    "bool": bool, "complex": complex, "bytes": bytes, "len": len, "abs": abs, "any": any, "all": all, "hash": hash,
+                    "range": range, "enumerate": lambda xs, start=0: tuple(enumerate(xs, start)), "reversed": lambda xs: tuple(reversed(xs)),
+                    "min": min, "max": max}
         self.lib.update(extra or {})
         self.depth = 0
 
@@ -222,8 +224,66 @@ class PureEval:
                 raise FevalError("raises")
             if isinstance(st, (ast.Import, ast.ImportFrom, ast.Pass)):
                 continue
+            if isinstance(st, ast.AnnAssign) and isinstance(st.target, ast.Name) and st.value is not None:
+                env[st.target.id] = self.ev(st.value, env)
+                continue
+            if isinstance(st, ast.AugAssign) and isinstance(st.target, ast.Name) and st.target.id in env:
+                env[st.target.id] = _BIN[type(st.op)](env[st.target.id], self.ev(st.value, env))
+                continue
+            # bounded loops of scalar threshold functions (a loop over a constant table of limits, "widen until it fits")
+            if isinstance(st, ast.For) and not st.orelse:
+                seq = self.ev(st.iter, env)
+                try:
+                    seq = list(seq)
+                except TypeError:
+                    raise FevalError("loop over a non-iterable")
+                if len(seq) > self.MAX_ITER:
+                    raise FevalError("loop too long for a threshold function")
+                done = False
+                for x in seq:
+                    self._bind(st.target, x, env)
+                    r = self._run(st.body, env)
+                    if r is _BREAK:
+                        break
+                    if r is _CONT:
+                        continue
+                    if r is not _NORET:
+                        return r
+                continue
+            if isinstance(st, ast.While) and not st.orelse:
+                n = 0
+                while self.ev(st.test, env):
+                    n += 1
+                    if n > self.MAX_ITER:
+                        raise FevalError("loop too long for a threshold function")
+                    r = self._run(st.body, env)
+                    if r is _BREAK:
+                        break
+                    if r is _CONT:
+                        continue
+                    if r is not _NORET:
+                        return r
+                continue
+            if isinstance(st, ast.Break):
+                return _BREAK
+            if isinstance(st, ast.Continue):
+                return _CONT
             raise FevalError(f"statement {type(st).__name__} in a pure function")
         return _NORET
+
+    MAX_ITER = 16
+
+    def _bind(self, target, value, env):
+        if isinstance(target, ast.Name):
+            env[target.id] = value
+        elif isinstance(target, (ast.Tuple, ast.List)):
+            vals = list(value)
+            if len(vals) != len(target.elts):
+                raise FevalError("unpacking mismatch")
+            for t, v in zip(target.elts, vals):
+                self._bind(t, v, env)
+        else:
+            raise FevalError("loop target")
 
     def ev(self, node, env):
         if isinstance(node, ast.Call):
@@ -234,9 +294,9 @@ class PureEval:
                 target = self.resolve(fn.id)
                 if target is not None:
                     return self.call(target, *args)
-                if fn.id in self.lib:
+                if fn.id in self.lib and callable(self.lib[fn.id]):
                     # callables passed as values (map(key, xs)) resolve lazily
-                    return self.lib[fn.id](*args)
+                    return self.lib[fn.id](*args, **{k.arg: self.ev(k.value, env) for k in node.keywords if k.arg})
             if isinstance(fn, ast.Attribute) and fn.attr in ("real", "imag"):
                 pass
         if isinstance(node, ast.Name):
@@ -298,3 +358,5 @@ class PureEval:
 
 
 _NORET = object()
+_BREAK = object()
+_CONT = object()
